@@ -391,6 +391,41 @@ def impl(case):
     h = case["hints"]
     on_l = ("k", "k2") if case.get("compound") else "k"
     on_l, on_r, lsub = mal_args(case, on_l, lsub)
+    scratch = []
+    if case.get("_n", 0) % 4 == 3 and not case.get("mal"):
+        # the SAME frame objects were merged before (what a script that joins one table against several does): first a merge that
+        # succeeds while every indexed-string column still holds empty entries; then the columns get their real entries (clear +
+        # write through the same field objects); then a merge in ANOTHER join mode that is refused midway (its destination already
+        # holds the last output column). The measured merge below must not notice any of it.
+        kw = dict(left_fields=lsub, right_fields=rsub, how=case["how"], hint_left_keys_ordered=h[0], hint_left_keys_unique=h[1],
+                  hint_right_keys_ordered=h[2], hint_right_keys_unique=h[3])
+        real = []
+        for df_ in (ldf, rdf):
+            for nm in df_.keys():
+                f = df_[nm]
+                if type(f).__name__ == "IndexedStringField":
+                    vals = list(f.data[:])
+                    real.append((f, vals))
+                    f.data.clear()
+                    f.data.write(["" for _ in vals])
+        try:
+            d1 = ds.create_dataframe(f"q{e['k']}")
+            scratch.append(d1)
+            e["dataframe"].merge(ldf, rdf, d1, on_l, on_r, **kw)
+        except Exception:  # noqa
+            pass
+        for f, vals in real:
+            f.data.clear()
+            f.data.write(vals)
+        names = list(expected_names(case).values())
+        try:
+            d0 = ds.create_dataframe(f"p{e['k']}")
+            scratch.append(d0)
+            if names:
+                d0.create_numeric(names[-1], "int32")
+            e["dataframe"].merge(ldf, rdf, d0, on_l, on_r, **dict(kw, how=("inner" if case["how"] == "left" else "left")))
+        except Exception:  # noqa
+            pass
     try:
         e["dataframe"].merge(ldf, rdf, ddf, on_l, on_r, left_fields=lsub, right_fields=rsub, how=case["how"],
                              hint_left_keys_ordered=h[0], hint_left_keys_unique=h[1],
@@ -398,7 +433,7 @@ def impl(case):
     finally:
         set_chunks(e, 1 << 20)
     out = dump(ddf)
-    for d in (ldf, rdf, ddf):
+    for d in [ldf, rdf, ddf] + scratch:
         try:
             ds.drop(d.name) if hasattr(ds, "drop") else None
         except Exception:
